@@ -22,7 +22,8 @@ type c19Op struct {
 }
 
 type c19Plan struct {
-	Clients [][]c19Op `json:"clients"`
+	Clients     [][]c19Op `json:"clients"`
+	Aggregation bool      `json:"aggregation_matching_everything"`
 }
 
 type c19In struct {
@@ -64,6 +65,15 @@ var c19Model = porcupine.Model{
 	},
 }
 
+// pairs of distinct names that collide under the 32-bit hashes a "cheaper key" would plausibly use (FNV-1a 32, FNV-1 32, CRC-32,
+// either half of FNV-1a 64): the property is per metric name, so two such series must never share their newest timestamp
+var c19Colliding = [][2]string{
+	{"hc.53be5037", "hc.23f07f15"}, {"hc.8b22318d", "hc.913f4dc6"}, // fnv1a-32
+	{"hc.n88448", "hc.n104090"},                                      // fnv1-32
+	{"hc.1fdc0ee9", "hc.5fb19e8e"}, {"hc.78a20e07", "hc.b853f23b"},   // crc32 (IEEE)
+	{"hc.094366ea", "hc.7fd29ee0"}, {"hc.n54540", "hc.n330682"},      // low and high half of fnv1a-64
+}
+
 func scenC19(x *Exec) {
 	g := x.Gen
 	cfg := SwarmConfig(g)
@@ -83,8 +93,13 @@ func scenC19(x *Exec) {
 			names = append(names, "."+b) // Graphite (and the validator) treat a leading dot as insignificant
 		}
 	}
+	if g.Bool(0.25) {
+		pair := c19Colliding[g.Pick(len(c19Colliding))]
+		names = []string{pair[0], pair[1]}
+	}
+	withAgg := g.Bool(0.5)
 	nclients := 2 + g.Intn(3)
-	p := c19Plan{}
+	p := c19Plan{Aggregation: withAgg}
 	tsBase := uint32(1000)
 	for c := 0; c < nclients; c++ {
 		var ops []c19Op
@@ -109,6 +124,10 @@ func scenC19(x *Exec) {
 	cfg.Horizon = 10 * time.Minute
 	prop := "C19"
 	tp := &TablePlan{Legacy: "medium", M20: "medium", Order: true, Routes: []RouteSpec{{Type: "capture", Key: "cap"}}}
+	if withAgg {
+		// "forwarded nowhere" includes aggregations: this one takes in every forwarded point, and nothing else
+		tp.Aggs = []AggSpec{{Fun: "count", F: FilterSpec{Regex: "."}, OutFmt: "c19agg.all", Cache: g.Bool(0.5), Interval: 10, Wait: 20}}
+	}
 
 	s := x.Bubble(cfg, func(s *simrt.Sim) {
 		nw := simnet.NewNet(simnet.DefaultConfig())
@@ -198,6 +217,13 @@ func scenC19(x *Exec) {
 		if c := counter("unit=Err.type=out_of_order"); c != int64(rejected) {
 			s.Fail(prop+":counter", "out_of_order counts %d but %d points were not forwarded", c, rejected)
 			return
+		}
+		if withAgg {
+			if got := counter("unit=Metric.direction=in.aggregator=" + bt.Aggs[0].Key); got != int64(len(history)-rejected) {
+				s.Fail(prop+":aggregated", "the aggregation took in %d points but %d were accepted (%d rejected as out of order must be forwarded nowhere)", got, len(history)-rejected, rejected)
+				return
+			}
+			s.Probe("c19.with_aggregation")
 		}
 		recs := bt.T.Bad().Get(24 * time.Hour)
 		simrt.Yield("bad.get")
